@@ -432,27 +432,42 @@ pub fn check_recovery(sc: &Scenario, out: &Outcome, opts: &RecoveryOpts, obs: &m
     let _ = sc;
     let mut sum = RecoverySummary::default();
     let mut conns: HashMap<(usize, u64), ConnLedger> = HashMap::new();
-    // datagrams that carry a Retry packet (by hash): a client that accepts one discards what it sent so far in the Initial
-    // space (RFC 9002 6.2.? / A.? "OnRetryReceived": the packets are removed from bytes in flight without being lost)
-    let retry_hashes: std::collections::HashSet<u64> = out
-        .net
-        .iter()
-        .filter(|n| crate::wire::parse_datagram(&n.payload, 16).iter().any(|h| h.ty == crate::wire::PktType::Retry && h.version == 1))
-        .map(|n| n.hash)
-        .collect();
-    for r in &out.recs {
+    // A client that accepts a Retry discards what it sent so far in the Initial space (removed from bytes in flight without
+    // being lost) and from then on sends Initial packets that carry the token. A Retry can also be discarded (wrong integrity
+    // tag after the client's Initial was damaged, a second Retry ...), so acceptance is read off the wire: the record of the
+    // last Retry datagram that reached the client before its first Initial with a token.
+    let payload_of: HashMap<u64, &Vec<u8>> = out.net.iter().map(|n| (n.hash, &*n.payload)).collect();
+    let has = |hash: &u64, f: &dyn Fn(&crate::wire::WHeader) -> bool| payload_of.get(hash).map(|p| crate::wire::parse_datagram(p, 16).iter().any(|h| h.version == 1 && f(h))).unwrap_or(false);
+    let mut retry_accepted_at: HashMap<usize, usize> = HashMap::new();
+    {
+        let mut last_retry: HashMap<usize, usize> = HashMap::new();
+        for (i, r) in out.recs.iter().enumerate() {
+            if r.ep == 0 {
+                continue;
+            }
+            match &r.ev {
+                Ev::RxDatagram { hash, .. } if has(hash, &|h| h.ty == crate::wire::PktType::Retry) => {
+                    last_retry.insert(r.ep, i);
+                }
+                Ev::TxDatagram { hash, .. } if !retry_accepted_at.contains_key(&r.ep) && has(hash, &|h| h.ty == crate::wire::PktType::Initial && h.token_len > 0) => {
+                    if let Some(at) = last_retry.get(&r.ep) {
+                        retry_accepted_at.insert(r.ep, *at);
+                    }
+                }
+                _ => {}
+            }
+        }
+    }
+    for (ri, r) in out.recs.iter().enumerate() {
         if r.conn == u64::MAX {
-            if let Ev::RxDatagram { hash, .. } = &r.ev {
-                if r.ep > 0 && retry_hashes.contains(hash) {
-                    // (a client endpoint of this harness has exactly one connection; a second or late Retry is ignored by
-                    // the client and finds nothing outstanding here either way only if it was accepted: only the first counts)
-                    for ((ep, _), c) in conns.iter_mut() {
-                        if *ep == r.ep && !c.retry_seen {
-                            c.retry_seen = true;
-                            sum.retries += 1;
-                            if let Some(sp) = c.spaces.get_mut(&Space::Initial) {
-                                sp.outstanding.clear();
-                            }
+            if retry_accepted_at.get(&r.ep) == Some(&ri) {
+                // (a client endpoint of this harness has exactly one connection)
+                for ((ep, _), c) in conns.iter_mut() {
+                    if *ep == r.ep && !c.retry_seen {
+                        c.retry_seen = true;
+                        sum.retries += 1;
+                        if let Some(sp) = c.spaces.get_mut(&Space::Initial) {
+                            sp.outstanding.clear();
                         }
                     }
                 }
